@@ -188,6 +188,10 @@ add('duplicate-default', 'stmt', 'switch (cobj) { default: ; default: ; }')
 add('case-outside-switch', 'stmt', 'case 1: ;')
 add('default-outside-switch', 'stmt', 'default: ;')
 add('case-non-constant', 'stmt', 'switch (cobj) { case cobj: ; }')
+add('duplicate-case-after-conversion-to-unsigned', 'stmt', 'unsigned du1 = 0; switch (du1) { case -1: ; case 4294967295u: ; }')
+add('duplicate-case-after-conversion-to-int', 'stmt', 'switch (cobj) { case 1: ; case 4294967297: ; }')
+add('duplicate-case-after-conversion-to-unsigned-long', 'stmt', 'unsigned long du2 = 0; switch (du2) { case -1: ; case 18446744073709551615u: ; }')
+add('duplicate-case-after-promotion-of-unsigned-char', 'stmt', 'unsigned char du3 = 0; switch (du3) { case 1: ; case 4294967297: ; }')
 add('case-float', 'stmt', 'switch (cobj) { case 1.5: ; }')
 add('switch-on-float', 'stmt', 'switch (cflt) { case 1: ; }')
 add('switch-on-pointer', 'stmt', 'switch (cptr) { default: ; }')
